@@ -276,6 +276,35 @@ func (c *Ctx) commitAfterUse() {
 			}
 			c.R.Check(ok, ruleP5, "WriteTo:commits-bytes-written", c.P.InstrPos(call), "ReadCommit(n) with n the count the writer returned", "the drain commits a count other than what the writer reported: bytes are skipped or sent twice on a short write")
 		}
+		// and whatever the writer took is committed before the drain peeks again: no way from the write back to the next
+		// peek passes by the commit (a `continue` on a timed-out short write sends the accepted bytes a second time)
+		g := paths.New(c.P, wt, 1)
+		g.Expand = func(callee *ssa.Function, site ssa.CallInstruction) bool {
+			for _, h := range hosts[1:] {
+				if callee == h {
+					return true
+				}
+			}
+			return false
+		}
+		isWrite := nodeM(func(call ssa.CallInstruction) bool {
+			return call.Common().IsInvoke() && call.Common().Method.Name() == "Write"
+		})
+		isPeek := nodeM(mMethod(pkgService, "buffer", "ReadPeek"))
+		isCommit := nodeM(mMethod(pkgService, "buffer", "ReadCommit"))
+		var bad []paths.Node
+		for _, wn := range nodesMatching(g, isWrite) {
+			if p := g.FindPath(g.Succ(wn), isCommit, isPeek); p != nil {
+				bad = append([]paths.Node{wn}, p...)
+			}
+		}
+		if len(nodesMatching(g, isWrite)) > 0 && len(nodesMatching(g, isPeek)) > 0 {
+			if bad != nil {
+				c.R.Bad(ruleP5, "WriteTo:commit-before-the-next-peek", c.P.InstrPos(bad[0].Instr), "the drain can peek again after a write without committing what the writer accepted: those bytes are written to the connection a second time (a duplicated run in the middle of the stream)", c.witness(g, bad)...)
+			} else {
+				c.R.Ok(ruleP5, "WriteTo:commit-before-the-next-peek", c.P.Pos(wt.Pos()), "every way from the write back to the peek passes the commit")
+			}
+		}
 	}
 }
 
